@@ -185,6 +185,8 @@ func handler(dev *simdev.Device, modeOf func(tid uint16) string) server.ModbusHa
 			return nil, e
 		case "generic-error":
 			return nil, errGeneric
+		case "slow":
+			time.Sleep(90 * time.Millisecond) // longer than the server's default write timeout: the reply is still owed
 		case "panic-string":
 			panic("verif: handler panics with a string")
 		case "panic-error":
@@ -228,7 +230,7 @@ func checkReply(c *Case, r *mon.Rec, f frame, reply []byte, ref []byte, where st
 		r.Violate(c, "reply-wrong-function", a, fmt.Sprintf("%s: reply function %d (exception=%v), request function %d", ctx, p.FC, p.Exception, f.fc))
 		return
 	}
-	wantExc := f.class == "unsupported" || f.class == "out-of-range" || f.class == "truncated" || (f.class == "valid" && f.mode != "dev")
+	wantExc := f.class == "unsupported" || f.class == "out-of-range" || f.class == "truncated" || (f.class == "valid" && !isDev(f.mode))
 	if wantExc && !p.Exception {
 		r.Violate(c, "exception-expected", a, ctx)
 		return
@@ -243,7 +245,7 @@ func checkReply(c *Case, r *mon.Rec, f frame, reply []byte, ref []byte, where st
 		r.Violate(c, "exception-code", mon.Attrs{"class": f.class, "want": 3, "got": int(p.ExCode)}, ctx)
 	case f.class == "valid" && f.mode == "typed-error" && p.ExCode != 2:
 		r.Violate(c, "exception-code", mon.Attrs{"class": "typed-error", "want": 2, "got": int(p.ExCode)}, ctx)
-	case f.class == "valid" && f.mode == "dev" && ref != nil && !bytes.Equal(reply, ref):
+	case f.class == "valid" && isDev(f.mode) && ref != nil && !bytes.Equal(reply, ref):
 		r.Violate(c, "reply-differs-from-device", a, fmt.Sprintf("%s: device reference reply % x", ctx, head(ref)))
 	}
 }
@@ -264,6 +266,9 @@ func readReplyErr(conn net.Conn) ([]byte, error) {
 	}
 	return rep, rerr
 }
+
+// isDev: the handler answers from the simulated device (at once or after a while).
+func isDev(m string) bool { return m == "dev" || m == "slow" }
 
 func isPanicMode(m string) bool { return len(m) > 5 && m[:5] == "panic" }
 
@@ -365,7 +370,7 @@ func runStream(c *Case, r *mon.Rec, rng *rand.Rand) {
 	ref := simdev.New(uint64(c.Seed), "srv")
 	for k, f := range frames {
 		var want []byte
-		if f.class == "valid" && f.mode == "dev" {
+		if f.class == "valid" && isDev(f.mode) {
 			want = ref.Serve(specref.TCP, f.b)
 		}
 		if len(out) < 9 {
@@ -448,7 +453,7 @@ func runSeq(c *Case, r *mon.Rec, rng *rand.Rand) {
 		used[f.tid] = true
 		f.mode = "dev"
 		if f.class == "valid" {
-			f.mode = []string{"dev", "dev", "typed-error", "generic-error", "panic-string", "panic-error", "panic-nilmap"}[rng.Intn(7)]
+			f.mode = []string{"dev", "dev", "typed-error", "generic-error", "panic-string", "panic-error", "panic-nilmap", "slow"}[rng.Intn(8)]
 		}
 		modes[f.tid] = f.mode
 		steps = append(steps, step{f: f})
@@ -568,7 +573,7 @@ func runSeq(c *Case, r *mon.Rec, rng *rand.Rand) {
 		}
 		isPanic := len(f.mode) > 5 && f.mode[:5] == "panic"
 		var ref []byte
-		if f.class == "valid" && f.mode == "dev" {
+		if f.class == "valid" && isDev(f.mode) {
 			ref = refDev.Serve(specref.TCP, f.b)
 		}
 		if isPanic {
